@@ -921,7 +921,7 @@ gen_plan_keyprep(const ProfileCfg &pc, uint64_t run_seed)
                         Op op;
                         op.kind = OP_KEYPREP;
                         op.task = 0;
-                        op.a = (int) r.range(1, 8);
+                        op.a = (int) r.range(1, 9);
                         uint32_t x = r.below(10);
                         op.b = x < 6 ? 0 : x < 7 ? 1 : x < 8 ? 2 : 3; // random / all-zero / all-one / single-bit keys
                         JobSpec j;
